@@ -33,7 +33,9 @@ func (regWorld) Name() string { return "W-REG" }
 var regNamePool = []string{"http://sim.example/psa/a", "http://sim.example/psa/b", "http://sim.example/psa/c", "urn:sim:psa:d",
 	"http://sim.example/psa/e", "https://sim.example/f", "http://sim.example/psa/g", "http://sim.example/h",
 	"ACME_IOT_PROFILE_7", "sim profile 8", "ACME_IOT_PROFILE_7 ", " SIM_PADDED ", "http://sim.example/psa?a=1&b=<2>",
-	"1.3.6.1.4.1.4128.42.7", "http://Sim.Example/psa/K"}
+	"1.3.6.1.4.1.4128.42.7", "http://Sim.Example/psa/K",
+	// names that read like fragments of the library's own error messages
+	"vendor profile (claim not in profile 1)", "missing optional claim"}
 
 // nameVariants: spellings that differ from a name only by letter case or by
 // surrounding white space. They are different names; unless registered
@@ -153,7 +155,7 @@ func (regWorld) Gen(prop, tier string, idx int, r *Rng) *Trace {
 			ops = append(ops, op)
 			registered++
 		case 1:
-			cands := append(append(append([]string{}, all...), unknownName), variants...)
+			cands := append(append(append([]string{}, all...), unknownName, ""), variants...) // "": the key of the default entry
 			ops = append(ops, Op{K: "newclaims", S: cands[r.Intn(len(cands))]})
 		case 2:
 			op := Op{K: "dispatch", A: r.Intn(1 << 16), L: []int{r.Intn(1000), r.Intn(1000), r.Intn(1000), r.Intn(1000), r.Intn(1000), r.Intn(1000)}}
@@ -306,6 +308,14 @@ func buildRegProbes(names []string) []regProbe {
 		d1 := *p1
 		d1.ProfClaim = sp(n)
 		add(regProbe{name: "cbor/265=" + n, ser: "cbor", doc: enc(d2, false), declares: []string{n}, c265: &n, pair: "d2/" + n})
+		// the same claims-set behind a tag whose number does not fit the initial byte (CWT 61, 1000, self-described CBOR)
+		if c := enc(d2, false); c != nil {
+			// (not tags 0 / 1: the CBOR library insists on a time value behind those, the embedding-aware
+			// reader skips any tag, and the properties leave tagged claims-sets open)
+			for _, th := range [][]byte{{0xd8, 0x3d}, {0xd9, 0x03, 0xe8}, {0xd9, 0xd9, 0xf7}} {
+				add(regProbe{name: fmt.Sprintf("cbor/265=%s behind tag %x", n, th), ser: "cbor", doc: append(append([]byte{}, th...), c...), declares: []string{n}, c265: &n, pair: "d2/" + n})
+			}
+		}
 		if c := enc(d2, false); len(c) > 4 && c[1] == 0x19 && c[2] == 0x01 && c[3] == 0x09 {
 			// the same token with key 265 written in a non-shortest form, and with that pair moved to the end of the map
 			nm := append([]byte{c[0], 0x1a, 0x00, 0x00, 0x01, 0x09}, c[4:]...)
@@ -436,6 +446,25 @@ func buildRegProbes(names []string) []regProbe {
 					nb = append(nb, val[1].([]byte)...)
 					add(regProbe{name: "cbor/p1 no-measurements, components " + val[0].(string), ser: "cbor", doc: nb, edge: true})
 				}
+			}
+		}
+	}
+	// profile-2 documents whose component list is an explicit null (decoding leaves no container behind)
+	{
+		dn := *p2
+		dn.ProfClaim = sp(psatoken.Profile2Name)
+		if j := enc(dn, true); j != nil {
+			add(regProbe{name: "json/p2 components null", ser: "json", doc: jsonEdit(j, "psa-software-components", "null", false), members: map[string]string{"eat-profile": psatoken.Profile2Name}, declares: []string{psatoken.Profile2Name}, edge: true})
+		}
+		dn.Sw = nil
+		dn.SwNil = true
+		if c := enc(dn, false); c != nil {
+			if h, err := readHead(c, 0); err == nil && h.Major == 5 && h.Info != 31 {
+				nb := append([]byte{}, encodeHead(5, h.Arg+1)...)
+				nb = append(nb, c[h.HLen:]...)
+				nb = append(nb, 0x19, 0x09, 0x5f, 0xf6) // 2399: null
+				p2n := psatoken.Profile2Name
+				add(regProbe{name: "cbor/p2 components null", ser: "cbor", doc: nb, declares: []string{p2n}, c265: &p2n, edge: true})
 			}
 		}
 	}
@@ -1146,6 +1175,9 @@ func (regWorld) Exec(prop string, t *Trace) *Result {
 				c2, e2 = psatoken.NewClaims(op.S)
 			}()
 			kind, exists := model[op.S]
+			if op.S == "" {
+				kind, exists = "p1", true // the default entry: profile 1
+			}
 			res.Evals++
 			shape += "N"
 			if exists != (e1 == nil) || exists != (e2 == nil) {
@@ -1161,7 +1193,7 @@ func (regWorld) Exec(prop string, t *Trace) *Result {
 				res.violate(prop, "newclaims-wrong-type", "", i, "NewClaims(%q) returned %s, registered kind is %s", op.S, typ, kindType[kind])
 			}
 			if c07 {
-				if pn, err := c1.GetProfile(); err != nil || pn != op.S {
+				if pn, err := c1.GetProfile(); op.S != "" && (err != nil || pn != op.S) {
 					res.violate("C07", "newclaims-reports-other-profile", "", i, "NewClaims(%q).GetProfile() = %q, %v", op.S, pn, err)
 				}
 			}
@@ -1181,8 +1213,22 @@ func (regWorld) Exec(prop string, t *Trace) *Result {
 			// profile and into a zero-value instance of the same type must give the same claims
 			// (a decode overwrites what the receiver held, it does not merge with it)
 			if c07 {
-				for _, bk := range []string{"p1", "p2"} {
-					bn := map[string]string{"p1": psatoken.Profile1Name, "p2": psatoken.Profile2Name}[bk]
+				targets := [][2]string{{"p1", psatoken.Profile1Name}, {"p2", psatoken.Profile2Name}}
+				{
+					// ... and of every registered extension kind whose zero value can be written down
+					var names []string
+					for n, k := range model {
+						if k == "xp2" || k == "xp1" || k == "xp1n" {
+							names = append(names, n)
+						}
+					}
+					sort.Strings(names)
+					for _, n := range names {
+						targets = append(targets, [2]string{model[n], n})
+					}
+				}
+				for _, tg := range targets {
+					bk, bn := tg[0], tg[1]
 					func() {
 						defer func() { _ = recover() }()
 						fresh, err := psatoken.NewClaims(bn)
@@ -1202,7 +1248,11 @@ func (regWorld) Exec(prop string, t *Trace) *Result {
 						}
 						e1, e2 := dec(fresh), dec(zero)
 						res.Evals++
-						if (e1 == nil) != (e2 == nil) {
+						builtin := bk == "p1" || bk == "p2"
+						if (e1 == nil) != (e2 == nil) && (builtin || e1 == nil) {
+							// (for an extension kind only the direction "what the factory had put into the instance
+							// makes a document decodable" counts as merging: a pre-set pointer field can also make
+							// the CBOR library stricter about a null, which is a codec quirk, not state leaking in)
 							res.violate("C07", "decode-merges-with-receiver-state", "", i, "%s: decoding into NewClaims(%q) gives err=%v, into a zero-value %s instance err=%v", p.name, bn, e1, bk, e2)
 						} else if e1 == nil {
 							if a, b := getterObs(fresh), getterObs(zero); a != b {
@@ -1225,6 +1275,15 @@ func (regWorld) Exec(prop string, t *Trace) *Result {
 					}
 					other := dispatch(q)
 					res.Evals++
+					if !other.ok {
+						// the same claims-set, the same declared profile, the same implementation expected by
+						// the reference dispatch: it cannot decode in one spelling and not in the other
+						k1, s1, w1 := refKind(p)
+						k2, s2, w2 := refKind(q)
+						if s1 && s2 && !w1 && !w2 && k1 == k2 && q.ser == p.ser {
+							res.violate("C07", "decodes-in-one-spelling-only", "", i, "%s decodes (as %s) but %s, the same claims-set declaring the same profile, does not", p.name, base.typ, q.name)
+						}
+					}
 					if other.ok && other.typ == base.typ {
 						res.Probes["serialisations_compared"]++
 						if other.valid != base.valid {
